@@ -322,6 +322,10 @@ def gen_job(seed, profile="general"):
     if r.random() < 0.08:
         # another model of the same kind was post-processed earlier in the process
         doc["prelude"] = [r.choice(["extrapolate", "extrapolate", "project"])]
+    if kpick(seed, "region-look", 6) == 0:
+        # someone looked at a region of the same template earlier in the process (plotted its
+        # quadrature points scaled by their weights, copied it, inverted the scheme)
+        doc["region"] = dict(doc.get("region") or {}, look=True)
     return doc
 
 
